@@ -11,8 +11,8 @@
 EXTENDS FEval, FData, Json, TLC
 
 Trace == ndJsonDeserialize("trace.ndjson")
-VARIABLES i, bad
-vars == <<i, bad>>
+VARIABLES i, bad, npin
+vars == <<i, bad, npin>>
 Same(a, b) == ToJson(a) = ToJson(b)
 
 \* Long division on 34-digit operands is too slow to compute in bulk in TLC, so a quotient or remainder
@@ -50,10 +50,14 @@ EventOK(e) ==
                          /\ (o[2][1] = "num" /\ Len(e.f64) = 3) => IsFloat64Of(DecOf(o[2]), e.f64)
                          /\ (o[2][1] = "num" => Len(e.f64) = 3)
 
-Init == i = 1 /\ bad = <<>>
+\* an event is pinned when the specification determines its outcome (not "unspec")
+Pinned(e) == RootDiv(e) \/ Outcome(e.tree, [this |-> NormMap(e.data), log |-> <<>>])[1] # "unspec"
+Init == i = 1 /\ bad = <<>> /\ npin = 0
 StepEvent == /\ i <= Len(Trace) /\ i' = i + 1
              /\ bad' = IF EventOK(Trace[i]) THEN bad ELSE Append(bad, i)
-Finish == /\ i = Len(Trace) + 1 /\ i' = i + 1 /\ UNCHANGED bad
+             /\ npin' = IF Pinned(Trace[i]) THEN npin + 1 ELSE npin
+Finish == /\ i = Len(Trace) + 1 /\ i' = i + 1 /\ UNCHANGED <<bad, npin>>
+          /\ PrintT("TRACE-PINNED " \o ToString(npin))
           /\ PrintT("VERDICT " \o ToJson(bad))
           /\ PrintT("TRACE-CONSUMED " \o ToString(Len(Trace)))
 Next == StepEvent \/ Finish
